@@ -27,7 +27,8 @@
     * the two source rows have present join values at edit distance `≤ τ` (`qualED "<=" τ`) and share a q-gram.
     Everything else (out attributes, prefixes, `n_jobs`, cpu count, `allow_empty`, `allow_missing`) is arbitrary.
 
-  NOT COVERED: float thresholds.  (SuffixFilter under EDIT_DISTANCE: SSJ/Props/C04_suffix.lean.)
+  Float thresholds: SSJ/Props/C04_float.lean (`tables_safe_position_ed_float`).  (SuffixFilter under EDIT_DISTANCE:
+  SSJ/Props/C04_suffix.lean.)
 -/
 import SSJ.Proofs.PositionBag
 import SSJ.Props.C04
